@@ -43,12 +43,23 @@ theorem copy_and_checkpoint_are_gated :
     RqModel.Gen.Backup.checkpointSites =
       ["state.go:recoverNode", "store.go:fsmSnapshot", "store.go:fsmSnapshot"] := by decide
 
+/-- store/store.go `Backup` closes its gzip writer (which writes the trailer) only when the
+backup succeeded, at all three sites: the model's `closeOnErr = false` -/
+theorem gzip_closed_only_on_success :
+    RqModel.Gen.Backup.backupGzipCloseSites = some 3 ∧
+    RqModel.Gen.Backup.backupGzipClosedOnlyOnSuccess = some true := by decide
+
+/-- http/service.go `handleBackup` aborts a response that has started when the backup fails:
+the model's `abort = true` -/
+theorem http_aborts_started_response :
+    RqModel.Gen.Backup.httpBackupAbortsStartedResponse = some true := by decide
+
 /-! ### 1. binary backup under the gate -/
 
 structure Inv (d : Db) : Prop where
   main_le : d.main ≤ d.n
-  copied  : d.gate = .backup → ∀ v ∈ d.copied, v = d.main
-  done    : ∀ b ∈ d.done, ∃ m, m ≤ d.n ∧ ∀ v ∈ b, v = m
+  copied  : d.gate = .backup → d.began = d.main ∧ ∀ v ∈ d.copied, v = d.main
+  done    : ∀ b ∈ d.done, b.1 ≤ d.n ∧ ∀ v ∈ b.2, v = b.1
 
 theorem inv_init : Inv {} := by
   constructor <;> simp
@@ -59,8 +70,8 @@ theorem inv_step (d : Db) (e : Ev) (h : Inv d) : Inv (stepDb d e) := by
   | write =>
     refine ⟨by simp [stepDb]; omega, by simpa [stepDb] using h2, ?_⟩
     intro b hb
-    obtain ⟨m, hm, hv⟩ := h3 b (by simpa [stepDb] using hb)
-    exact ⟨m, by simp [stepDb]; omega, hv⟩
+    have := h3 b (by simpa [stepDb] using hb)
+    exact ⟨by simp [stepDb]; omega, this.2⟩
   | snapBegin =>
     by_cases hg : d.gate = .free
     · simp only [stepDb, hg, if_true]
@@ -89,10 +100,12 @@ theorem inv_step (d : Db) (e : Ev) (h : Inv d) : Inv (stepDb d e) := by
     by_cases hg : d.gate = .backup
     · simp only [stepDb, hg, if_true]
       refine ⟨h1, ?_, h3⟩
-      intro _ v hv
+      intro _
+      refine ⟨(h2 hg).1, ?_⟩
+      intro v hv
       simp at hv
       rcases hv with hv | hv
-      · exact h2 hg v hv
+      · exact (h2 hg).2 v hv
       · exact hv
     · simp only [stepDb, hg, if_false]
       exact ⟨h1, h2, h3⟩
@@ -105,7 +118,8 @@ theorem inv_step (d : Db) (e : Ev) (h : Inv d) : Inv (stepDb d e) := by
       rcases hb with hb | hb
       · exact h3 b hb
       · subst hb
-        exact ⟨d.main, h1, h2 hg⟩
+        have := h2 hg
+        exact ⟨by simp only; omega, by simp only; rw [this.1]; exact this.2⟩
     · simp only [stepDb, hg, if_false]
       exact ⟨h1, h2, h3⟩
 
@@ -116,11 +130,13 @@ theorem inv_run (d : Db) (evs : List Ev) (h : Inv d) : Inv (runDb d evs) := by
 
 /-- **A binary backup is the main file of ONE committed state.** For every interleaving
 of commits, snapshots (with any number of partial or full checkpoints), and backups
-copying the main file in any number of chunks: every finished backup consists of chunks
-that all come from the same version `m` of the main file, and `m` is a committed prefix
-(`m ≤ n`): the state at the last checkpoint before the backup took the gate. -/
+copying the main file in any number of chunks: every chunk of a finished backup is the
+main file AS IT WAS WHEN THE BACKUP TOOK THE GATE (`b.1`), and that version is a committed
+prefix (`b.1 ≤ n`). (That no checkpoint can run while the gate is held is the model's
+enabling condition of `checkpoint`; its tie to the code is `copy_and_checkpoint_are_gated`
+and the sequential-schedule run on the real Store.) -/
 theorem binary_backup_is_some_committed_prefix (evs : List Ev) :
-    ∀ b ∈ (runDb {} evs).done, ∃ m, m ≤ (runDb {} evs).n ∧ ∀ v ∈ b, v = m :=
+    ∀ b ∈ (runDb {} evs).done, b.1 ≤ (runDb {} evs).n ∧ ∀ v ∈ b.2, v = b.1 :=
   (inv_run _ evs inv_init).done
 
 /-- while a backup holds the gate no step changes the main file -/
@@ -160,7 +176,7 @@ theorem incomplete_transfer_is_error (G : GzipLaw) (compress respErr : Bool)
     (frame payload : List UInt8) (cut : Nat)
     (hcut : cut < (frame ++ G.enc payload).length) :
     clientBackup G true compress frame respErr payload cut = .error := by
-  unfold clientBackup
+  unfold clientBackup clientStream
   simp only
   by_cases h1 : ((frame ++ G.enc payload).take cut).length < frame.length
   · rw [if_pos h1]
@@ -179,7 +195,7 @@ theorem incomplete_transfer_is_error (G : GzipLaw) (compress respErr : Bool)
 /-- a refused request is an error and delivers nothing -/
 theorem refused_is_error (G : GzipLaw) (validate compress : Bool) (frame payload : List UInt8) (cut : Nat) :
     clientBackup G validate compress frame true payload cut = .error := by
-  unfold clientBackup
+  unfold clientBackup clientStream
   simp only
   split <;> simp
 
@@ -189,7 +205,7 @@ theorem complete_transfer_ok (G : GzipLaw) (compress : Bool) (frame payload : Li
     (hcut : (frame ++ G.enc payload).length ≤ cut) :
     clientBackup G true compress frame false payload cut =
       .ok (if compress then G.enc payload else payload) := by
-  unfold clientBackup
+  unfold clientBackup clientStream
   have ht : (frame ++ G.enc payload).take cut = frame ++ G.enc payload := List.take_of_length_le hcut
   simp only [ht]
   have h1 : ¬ (frame ++ G.enc payload).length < frame.length := by simp
@@ -201,7 +217,7 @@ with compress=true every cut after the response frame was a SUCCESS carrying a p
 theorem unvalidated_compress_returns_any_prefix (G : GzipLaw) (frame payload : List UInt8) (cut : Nat)
     (h : frame.length ≤ cut) :
     clientBackup G false true frame false payload cut = .ok ((G.enc payload).take (cut - frame.length)) := by
-  unfold clientBackup
+  unfold clientBackup clientStream
   have hl : ¬ ((frame ++ G.enc payload).take cut).length < frame.length := by
     simp [List.length_take]; omega
   simp only [hl, if_false, Bool.false_eq_true, if_true]
@@ -215,7 +231,7 @@ theorem len_model_agrees (G : GzipLaw) (validate compress respErr : Bool)
       | .error => .error
       | .ok b =>
         if cut - frame.length < (G.enc payload).length then .truncated b.length else .complete := by
-  unfold clientBackupLen clientBackup
+  unfold clientBackupLen clientBackup clientStream
   simp only
   have hlen : ((frame ++ G.enc payload).take cut).length = min cut (frame.length + (G.enc payload).length) := by
     simp [List.length_take, List.length_append]
@@ -242,6 +258,66 @@ theorem len_model_agrees (G : GzipLaw) (validate compress respErr : Bool)
         cases compress <;> cases validate <;> simp [List.length_take] <;> omega
     · simp
 
+/-! ### 3b. the serving node's backup fails part way -/
+
+/-- THE FULL STATEMENT for a backup whose production fails on the serving node after its
+source yielded `produced`: whatever arrives, the relaying client reports an error. -/
+def serving_failure_full (G : GzipLaw) (closeOnErr : Bool) : Prop :=
+  ∀ (compress : Bool) (frame produced : List UInt8) (cut : Nat),
+    relayed G closeOnErr true compress frame produced false cut = .error
+
+/-- **A backup that could not be produced is an error on the relaying node** (the tree as it
+is: the serving node leaves its gzip stream unterminated after a failure), for both values
+of the compress flag and wherever the stream ends. -/
+theorem serving_failure_is_error (G : GzipLaw) : serving_failure_full G false := by
+  intro compress frame produced cut
+  unfold relayed served clientStream
+  simp only [Bool.or_false, Bool.false_eq_true, if_false]
+  by_cases h1 : ((frame ++ G.open_ produced).take cut).length < frame.length
+  · rw [if_pos h1]
+  · rw [if_neg h1]
+    have hb := body_of_cut frame (G.open_ produced) cut (by omega)
+    have hdec := G.open_cut produced (cut - frame.length)
+    simp only [hb, hdec]
+    cases compress <;> simp
+
+/-- the defect that was repaired (`closeOnErr = true`): the serving node terminated the gzip
+stream of the PARTIAL data, so the complete arrival of that stream was a success carrying
+a partial (possibly empty) backup — for every gzip satisfying the laws. Observed on the real
+Store + cluster.Service + cluster.Client with an unreadable database file. -/
+theorem serving_failure_closed_witness (G : GzipLaw) : ¬ serving_failure_full G true := by
+  intro h
+  have := h false [] [] (G.enc []).length
+  unfold relayed served at this
+  simp only [Bool.or_true, if_true] at this
+  have hc := complete_transfer_ok G false [] [] (G.enc []).length (by simp)
+  unfold clientBackup at hc
+  rw [hc] at this
+  simp at this
+
+/-! ### 4. the HTTP surface -/
+
+/-- THE FULL STATEMENT at the HTTP API: a backup that fails after `k` bytes is visible to the
+client as an error (error status, or a response that does not end normally) -/
+def http_failure_full (abort : Bool) : Prop :=
+  ∀ k errLen, httpClientSeesError (httpBackup abort k true errLen) = true
+
+theorem http_failure_is_visible : http_failure_full true := by
+  intro k errLen
+  unfold httpBackup httpClientSeesError
+  by_cases hk : k = 0 <;> simp [hk]
+
+/-- before the `fix:` commit: 200, body = partial backup + error text, normal end -/
+theorem http_failure_appended_witness : ¬ http_failure_full false := by
+  intro h
+  have := h 1 30
+  revert this
+  decide
+
+theorem http_success_is_clean (abort : Bool) (k errLen : Nat) :
+    httpBackup abort k false errLen = ⟨200, k, true⟩ := by
+  simp [httpBackup]
+
 /-! ### non-vacuity -/
 
 /-- a toy codec satisfying `GzipLaw`: length byte(s) in unary, then the data, then a
@@ -249,7 +325,7 @@ terminator — enough to show the law is satisfiable and the theorems are not va
 def toyEnc (x : List UInt8) : List UInt8 := x.map (fun _ => (1 : UInt8)) ++ [0] ++ x
 
 example : (runDb {} [.write, .write, .snapBegin, .checkpoint 0, .snapEnd, .write, .backupBegin,
-    .copyChunk, .write, .snapBegin, .checkpoint 5, .copyChunk, .backupEnd, .snapBegin, .checkpoint 5, .snapEnd]).done = [[1, 1]] ∧
+    .copyChunk, .write, .snapBegin, .checkpoint 5, .copyChunk, .backupEnd, .snapBegin, .checkpoint 5, .snapEnd]).done = [(1, [1, 1])] ∧
     (runDb {} [.write, .write, .snapBegin, .checkpoint 0, .snapEnd, .write, .backupBegin,
     .copyChunk, .write, .snapBegin, .checkpoint 5, .copyChunk, .backupEnd, .snapBegin, .checkpoint 5, .snapEnd]).main = 4 := by
   decide
